@@ -357,6 +357,7 @@ func checkC14(w *World, r *Report) {
 	checkChainWalkBounds(w, r, "R14.7")
 	checkParseAlwaysParses(w, r, "R14.8")
 	checkParseTreesNotMemoised(w, r)
+	checkTreesAreParsed(w, r)
 }
 
 // checkNoAliasedHeaders (R14.3 / R01.7): no string or slice header is manufactured over memory
